@@ -40,6 +40,29 @@ func unspecifiedRules(c *ValCase) map[string]string {
 			out["OverlappingFieldsCanBeMerged"] = "__typename against a field of another shape"
 		}
 	}
+	// a field with two arguments of one name: "same arguments" is then decided by whichever copy a
+	// lookup by name finds, so the overlap verdict depends on the direction of the comparison
+	var dupArgs func(ss []*model.Sel) bool
+	dupArgs = func(ss []*model.Sel) bool {
+		for _, x := range ss {
+			names := map[string]bool{}
+			for _, a := range x.Args {
+				if names[a.Name] {
+					return true
+				}
+				names[a.Name] = true
+			}
+			if dupArgs(x.Sel) {
+				return true
+			}
+		}
+		return false
+	}
+	for _, def := range c.Doc.Defs {
+		if dupArgs(def.Sel) {
+			out["OverlappingFieldsCanBeMerged"] = "a field with duplicate argument names"
+		}
+	}
 	// Same-named fragments / variables with different definitions: the spec does not say
 	// which definition a reference resolves to (the reference takes the first, the library the last)
 	seen := map[string]string{}
@@ -137,8 +160,10 @@ func c02Oracle(c *ValCase, b *build.Built) (msg string, violated []string) {
 		if vr.IsValid != (len(vr.Errors) == 0) {
 			return fmt.Sprintf("rule %s: IsValid=%v with %d errors", name, vr.IsValid, len(vr.Errors)), violated
 		}
-		if len(wantV) > 0 {
-			// at least one reported location is the start of a node the rule may blame
+		if len(wantV) > 0 && !sameNamedDefinitions(c.Doc) {
+			// at least one reported location is the start of a node the rule may blame (with two
+			// definitions of one name, even identical ones, either copy's nodes may be blamed:
+			// only the verdict is compared then)
 			var nodes []interface{}
 			for _, v := range wantV {
 				nodes = append(nodes, v.Nodes...)
@@ -188,6 +213,23 @@ func c02Oracle(c *ValCase, b *build.Built) (msg string, violated []string) {
 		}
 	}
 	return "", violated
+}
+
+func sameNamedDefinitions(d *model.Doc) bool {
+	seen := map[string]bool{}
+	for _, f := range d.Fragments() {
+		if seen["f:"+f.Name] {
+			return true
+		}
+		seen["f:"+f.Name] = true
+	}
+	for _, op := range d.Operations() {
+		if op.Name != "" && seen["o:"+op.Name] {
+			return true
+		}
+		seen["o:"+op.Name] = true
+	}
+	return false
 }
 
 func anonymousOps(d *model.Doc) int {
@@ -246,7 +288,7 @@ func TestC02_Gen(t *testing.T) {
 		if gen.Chance(rt, 40, "layout") {
 			c.Layout = &model.Layout{Seps: rapid.SliceOfN(rapid.IntRange(0, model.NumASCIISeparators-1), 1, 7).Draw(rt, "seps")}
 		}
-		nInject := []int{0, 1, 1, 1, 2}[gen.Uniform(rt, 5, "nInject")]
+		nInject := []int{0, 1, 1, 1, 2, 2, 3, 4, 5, 6}[gen.Uniform(rt, 10, "nInject")]
 		for i := 0; i < nInject; i++ {
 			op := rapid.IntRange(0, nOps-1).Draw(rt, "operator")
 			// spread the draws evenly over the catalogue instead of rapid's small-value bias
